@@ -89,7 +89,11 @@ def roundtrip(mod, dem, x, kind, b, reset=True, widen=False):
         exp, mask = expected(kind, ri, b)
         bad = [i for i, (e, o, m) in enumerate(zip(exp, ro, mask)) if m and float(o) != float(e)]
         if bad:
-            probs.append(("roundtrip", f"bits {[int(v) for v in ri]} -> {[int(v) if float(v).is_integer() else v for v in ro]}, expected {exp} (first difference at {bad[0]})"))
+            if len(ri) > 64:
+                lo, hi = max(0, bad[0] - 8), bad[0] + 9
+                probs.append(("roundtrip", f"{len(ri)} bits: output bits {lo}..{hi - 1} are {[int(v) if float(v).is_integer() else v for v in ro[lo:hi]]}, expected {exp[lo:hi]} (first difference at bit {bad[0]}, {len(bad)} differences)"))
+            else:
+                probs.append(("roundtrip", f"bits {[int(v) for v in ri]} -> {[int(v) if float(v).is_integer() else v for v in ro]}, expected {exp} (first difference at {bad[0]})"))
             break
     return probs
 
@@ -141,6 +145,17 @@ def run_spec(p, res):
     two = torch.tensor([seq, seq[::-1]], dtype=f32)
     run("2,L[transposed view]", two.t().contiguous().t(), may_reject=True)
     run("2,L[strided view]", torch.stack([two, 1 - two], dim=2).reshape(2, -1)[:, ::2], may_reject=True)
+    # one LONG sequence (the de Bruijn cycle repeated to 2^15+3 symbols [thorough: 2^17+5], an odd, non-round count), 1-D and as 3 rows of unequal content:
+    # implementations that work in blocks / chunks must treat the tail like the rest
+    nlong = ((1 << 15) + 3) if q else ((1 << 17) + 5)
+    if kind == "alternating":
+        nlong = (1 << 12) + 3          # per-symbol Python loop in the library
+    reps = nlong // len(db) + 1
+    long_syms = (db * reps)[:nlong]
+    long_bits = [bit for v in long_syms for bit in sym(v)]
+    run("1d-long", torch.tensor(long_bits, dtype=f32))
+    third = (nlong // 3) * b
+    run("3,L-long", torch.tensor([long_bits[:third], long_bits[third:2 * third], long_bits[-third:]], dtype=f32))
     half = (len(db) // 4) * 2 * b
     if half >= 2 * b:
         run("2,L", torch.tensor([seq[:half], seq[-half:]], dtype=f32))
